@@ -77,7 +77,7 @@ func (b *Batch) BuildDriver(extraImports []string, race bool) error {
 		if nAPI > 0 {
 			reg.WriteString(fmt.Sprintf("\t_ \"%s/api\"\n", b.Mod))
 		}
-		reg.WriteString(")\n\nvar _ = gen.Keep\n\nvar setFaults = map[int]func(bool){}\n\nvar registry = map[int]reflect.Value{\n")
+		reg.WriteString(")\n\nvar _ = gen.Keep\n\nvar setFaults = map[int]func(bool){}\n\nvar registry = map[int]reflect.Value{}\n")
 		ids := make([]int, 0, len(b.Reg))
 		for id := range b.Reg {
 			if b.OK[id] {
@@ -85,10 +85,20 @@ func (b *Batch) BuildDriver(extraImports []string, race bool) error {
 			}
 		}
 		sort.Ints(ids)
-		for _, id := range ids {
-			fmt.Fprintf(&reg, "\t%d: %s,\n", id, b.Reg[id])
+		// filled by init functions of bounded size: one huge composite literal makes the compiler's liveness analysis explode
+		// (go1.26, -race: "internal compiler error: NewBulk too big" at ~130k entries)
+		for k, id := range ids {
+			if k%500 == 0 {
+				if k > 0 {
+					reg.WriteString("}\n")
+				}
+				reg.WriteString("\nfunc init() {\n")
+			}
+			fmt.Fprintf(&reg, "\tregistry[%d] = %s\n", id, b.Reg[id])
 		}
-		reg.WriteString("}\n")
+		if len(ids) > 0 {
+			reg.WriteString("}\n")
+		}
 		Must(os.WriteFile(filepath.Join(drv, "registry.go"), []byte(reg.String()), 0o644))
 		Must(os.MkdirAll(filepath.Join(b.Work, "gen"), 0o755))
 		Must(os.WriteFile(filepath.Join(b.Work, "gen", "keep.go"), []byte("package gen\n\n// Keep makes the package non-empty.\nconst Keep = 0\n"), 0o644))
